@@ -91,5 +91,8 @@ def get_mutators():
 def is_relevant(node):
     """Checks whether this theory might be relevant for this node."""
     if node.has_ident():
-        return node.get_ident() in ['declare-datatypes', 'declare-datatype']
+        return node.get_ident() in [
+            'declare-datatypes', 'declare-datatype', 'declare-codatatypes',
+            'declare-codatatype'
+        ]
     return False
